@@ -41,6 +41,7 @@ type cmd struct {
 	Err     error
 	EvOpt   gen.EventOptions
 	Factory gen.ProcessFactory
+	Meta    *actors.Meta
 	PO      gen.ProcessOptions
 	Done    chan res
 }
@@ -90,10 +91,76 @@ func exec(p *actors.Probe, m cmd) res {
 	case "unregevent":
 		return res{Err: p.UnregisterEvent(m.Name)}
 	case "spawn":
+		if m.Name != "" {
+			pid, err := p.SpawnRegister(m.Name, m.Factory, m.PO)
+			return res{Err: err, PID: pid}
+		}
 		pid, err := p.Spawn(m.Factory, m.PO)
 		return res{Err: err, PID: pid}
+	case "spawnmeta":
+		a, err := p.SpawnMeta(m.Meta, gen.MetaOptions{})
+		return res{Err: err, Alias: a}
 	}
 	return res{}
+}
+
+// metaRec is a meta process owned by an observer; its id is an alias target
+type metaRec struct {
+	alias   gen.Alias
+	m       *actors.Meta
+	alive   bool // model
+	stopped bool
+}
+
+// stop makes Start() return reason
+func (mr *metaRec) stop(reason error) {
+	if mr.stopped {
+		return
+	}
+	mr.stopped = true
+	mr.m.StopReason = reason
+	close(mr.m.Stop)
+}
+
+// gone: the terminate callback of the meta process has completed (it runs after the alias drain) and no handler goroutine is alive
+func (mr *metaRec) gone() bool {
+	return mr.m.I.TermCount.Load() > 0 && !mr.m.I.InCallback() && hk.LiveRunners(mr.alias) == 0
+}
+
+func metaHooks() *actors.MetaHooks {
+	return &actors.MetaHooks{
+		Msg: func(m *actors.Meta, from gen.PID, msg any) error {
+			if e, ok := msg.(error); ok {
+				return e
+			}
+			return nil
+		},
+	}
+}
+
+func spawnMetaOn(o *obs, label string) (*metaRec, string) {
+	m := actors.NewMeta(label, metaHooks())
+	rr, ok := do(o, cmd{Op: "spawnmeta", Meta: m})
+	if !ok {
+		return nil, "watchdog: command did not return"
+	}
+	if rr.Err != nil {
+		return nil, rr.Err.Error()
+	}
+	select {
+	case <-m.Started:
+	case <-time.After(10 * time.Second):
+		return nil, "watchdog: meta process did not start"
+	}
+	mr := &metaRec{alias: rr.Alias, m: m, alive: true}
+	o.metas = append(o.metas, mr)
+	return mr, ""
+}
+
+func (o *obs) stopMetas() {
+	for _, mr := range o.metas {
+		mr.stop(nil)
+	}
 }
 
 // observer behaviour: trap exit on, execute commands, record everything (the
@@ -111,6 +178,17 @@ func observerHooks() *actors.Hooks {
 			return nil
 		},
 		Msg: func(p *actors.Probe, from gen.PID, msg any) error {
+			if sa, ok := msg.(spawnArgs); ok {
+				var pid gen.PID
+				var err error
+				if sa.C.Name != "" {
+					pid, err = p.SpawnRegister(sa.C.Name, sa.C.Factory, sa.C.PO, sa.Args...)
+				} else {
+					pid, err = p.Spawn(sa.C.Factory, sa.C.PO, sa.Args...)
+				}
+				sa.C.Done <- res{Err: err, PID: pid}
+				return nil
+			}
 			m, ok := msg.(cmd)
 			if !ok {
 				return nil
@@ -197,21 +275,31 @@ func reasonOK(want, got error) bool {
 	if got == nil || want == nil {
 		return false
 	}
-	return errors.Is(want, got) || errors.Is(got, want)
+	for e := got; e != nil; e = errors.Unwrap(e) {
+		if errors.Is(want, e) {
+			return true
+		}
+	}
+	return false
 }
 
 // obs is one observed process
 type obs struct {
-	idx    int
-	label  string
-	pid    gen.PID
-	inst   *actors.Inst
-	alive  bool // model
-	parent int  // index of the spawning observer, -1 = node
-	seen   int  // events of inst consumed so far
+	idx   int
+	label string
+	pid   gen.PID
+	inst  *actors.Inst
+	alive bool // model
+	// maybe: expected to terminate on the exit signal of its parent. Quiescence accepts it gone or
+	// asleep with an empty mailbox: once the parent's runner has exited every message it sent is in a
+	// mailbox, so an idle child with an empty mailbox will never get the signal (stable structural witness)
+	maybe  bool
+	parent int // index of the spawning observer, -1 = node
+	seen   int // events of inst consumed so far
 
 	name    gen.Atom
 	aliases []gen.Alias
+	metas   []*metaRec
 	events  []gen.Atom
 	// a successful DeleteAlias happened while the process held >= 2 aliases
 	delAliasMulti bool
@@ -292,11 +380,34 @@ func gone(o *obs) bool {
 // the others asleep with empty mailboxes; no callback and no runner in flight.
 func waitQuiet(ps []*obs) bool {
 	return hk.WaitUntil(20*time.Second, func() bool {
+		// the pass over the processes is not an atomic snapshot: it only counts if nothing ran meanwhile
+		a := activity()
+		return quietPass(ps) && activity() == a
+	})
+}
+
+// activity changes whenever a callback begins or ends, a runner goroutine
+// starts or ends, or the relation set is touched
+func activity() int64 {
+	return hk.Now() + hk.Hits("proc.run.enter") + hk.Hits("proc.run.exit") + hk.Hits("proc.run.wake") +
+		hk.Hits("meta.enter") + hk.Hits("meta.exit") + hk.Hits("meta.wake")
+}
+
+func quietPass(ps []*obs) bool {
+	{
 		for _, o := range ps {
 			if o.inst.InCallback() || hk.LiveRunners(o.pid) > 0 {
 				return false
 			}
 			info, err := node.ProcessInfo(o.pid)
+			for _, mr := range o.metas {
+				if mr.m.I.InCallback() || hk.LiveRunners(mr.alias) > 0 {
+					return false
+				}
+				if !mr.alive && mr.m.I.TermCount.Load() == 0 && !(o.maybe && err == nil) {
+					return false // expected to terminate: its terminate callback follows the alias drain
+				}
+			}
 			if err != nil {
 				// gone (expectedly or not): its terminate callback must have run
 				if o.inst.TermCount.Load() == 0 {
@@ -304,7 +415,7 @@ func waitQuiet(ps []*obs) bool {
 				}
 				continue
 			}
-			if !o.alive {
+			if !o.alive && !o.maybe {
 				return false // expected to terminate, still there
 			}
 			if q := info.MailboxQueues; q.Main+q.System+q.Urgent+q.Log > 0 {
@@ -315,7 +426,7 @@ func waitQuiet(ps []*obs) bool {
 			}
 		}
 		return true
-	})
+	}
 }
 
 func isGone(o *obs) bool {
@@ -466,9 +577,9 @@ func stat(name string, v int64) {
 
 func main() {
 	hk.InstallHook()
-	hk.Rule("D: per target kind {pid,name,alias,event} x relation {link,monitor} x cause {kill, handler error, explicit unregister} x order of the steps check(C) insert(I) of the requester and delete(X) drain(Y) of the terminator, forced by gates at link.checked / proc.unreg.*; plus LinkChild with the parent parked at proc.spawn.linked. Non-trivial iff the order MEASURED from hook ticks and the TargetManager tap equals the intended one. " +
-		"R: the same pairs raced under seeded delays; non-trivial iff requester and terminator really overlapped (request started before the drain and finished after the delete began); key = measured order. " +
-		"S: seeded random sequential histories (<=40 ops over 3-6 trap-exit observers, ops decided at quiescence); non-trivial iff >=1 disappearance was observed by >=1 live relation; key = set of (relation x target kind x cause) notified in the history.")
+	hk.Rule("D (directed): target kind {pid, name, alias, event, meta-process alias} x {link, monitor} x cause {Kill, handler error, unregister by owner, Node.UnregisterName, meta stop / handler error} x order of the steps check(C), insert(I) of the requester and table delete(X), drain(Y), continuation(Z) of the terminator: CIXY CXIY CXYI XCY YCZ XYCI, forced by gates at link.checked, proc.unreg.* / node.unregname.deleted and at the entry/exit of TargetManager.CleanupTarget (tap); the same for the REMOVAL of an established relation (UXY XUY YUZ XYU); DeleteAlias bookkeeping (n aliases, delete #i, watch #j); LinkChild with the parent parked at proc.spawn.linked; LinkParent. Non-trivial iff the order MEASURED from hook ticks and tap records equals the intended one. " +
+		"R (race): the same pairs raced under seeded delays at the same yield points; non-trivial iff request and disappearance really overlapped (check passed although the delete preceded the insert, or the request ran between delete and drain); key includes the measured order and the result class. F (fan): 3-8 requesters on all target kinds of one owner racing one termination; non-trivial iff >=1 request overlapped the drain of its target. " +
+		"S (history): seeded random sequential histories (<=40 operations over 3-9 trap-exit observers, each operation decided at quiescence); non-trivial iff >=1 disappearance was matched by >=1 notification of a live relation; key = set of (relation x target kind x cause) classes notified in the history.")
 	hk.Assume("observers are act.Actor processes with SetTrapExit(true); an exit signal from the parent is not trappable in act.Actor and is observed as the terminate reason of the child")
 	hk.Assume("local targets only (one node, networking disabled); remote links/monitors go through the network layer and are not exercised here")
 	hk.Assume("a relation whose consumer has terminated expects nothing; consumers that die in the same step as the target (cascade through LinkParent) are not judged for other notifications of that step")
